@@ -23,6 +23,11 @@
 //! initial dump is judged (a held family must not be advertised to it); the
 //! early-session scenarios keep such a session up across the release and
 //! count how often it is sent each held prefix (exactly once).
+//! `conc`: concurrent trials — OS threads doing `insert_route` / `remove_route`
+//! on a few hot prefixes while another thread ends the deferral through the
+//! glue, with `verif_hooks` delay injection (sched points 1, 2 and 8); judged
+//! at quiescence only (final view of the observer channel = RIB, untouched held
+//! prefixes announced exactly once, no shard left deferring).
 //! `VERIF_REPLAY=<file>` re-executes a recorded witness.
 //!
 //! Oracle: a pending-map model written from the property statement (see
@@ -2339,6 +2344,456 @@ fn run_early_session_scenarios(ctx: &mut Ctx) {
     }
 }
 
+// ------------------------------------------------------------------ concurrent part
+
+const CONC_FAMS: [usize; 3] = [0, 1, 3]; // ipv4, ipv6 deferred; vpnv6 never deferred
+const CONC_NPFX: usize = 8;
+
+/// Prefixes for the concurrent trials: `data[f][x]`, and one probe prefix per
+/// (family, shard), found by asking a real (non-deferring) TableManager.
+struct ConcPool {
+    shards: usize,
+    data: Vec<Vec<packet::Nlri>>,
+    probe: Vec<Vec<packet::Nlri>>,
+    /// nlri -> (family, index); probes have index 100 + shard
+    index: FnvHashMap<packet::Nlri, (u8, u8)>,
+}
+
+impl ConcPool {
+    fn new(env: &Env, shards: usize) -> ConcPool {
+        let scratch = TableManager::new(shards);
+        let mut data = vec![Vec::new(); NTF];
+        let mut probe = vec![Vec::new(); NTF];
+        let mut index = FnvHashMap::default();
+        for &f in &CONC_FAMS {
+            let mut per_shard: Vec<Option<packet::Nlri>> = vec![None; shards];
+            let mut k = 100u32;
+            while (data[f].len() < CONC_NPFX || per_shard.iter().any(|p| p.is_none())) && k < 250 {
+                let n = cand_nlri(f, k);
+                k += 1;
+                if data[f].len() < CONC_NPFX {
+                    index.insert(n.clone(), (f as u8, data[f].len() as u8));
+                    data[f].push(n);
+                    continue;
+                }
+                scratch.insert_route(env.sources[0].clone(), fam_of(f), packet::PathNlri::new(n.clone()), Some(env.nh[f]), mk_attrs(0), None, 0);
+                for sh in 0..shards {
+                    let t = scratch.shards[sh].lock().unwrap();
+                    if per_shard[sh].is_none() && t.rtable.collect_loc_rib_paths(&fam_of(f)).iter().any(|c| c.net == n) {
+                        index.insert(n.clone(), (f as u8, 100 + sh as u8));
+                        per_shard[sh] = Some(n.clone());
+                    }
+                }
+            }
+            probe[f] = per_shard.into_iter().flatten().collect();
+        }
+        ConcPool { shards, data, probe, index }
+    }
+}
+
+#[derive(Clone, Copy, Debug)]
+struct SessOp {
+    insert: bool,
+    f: u8,
+    x: u8,
+    tag: u32,
+}
+
+/// The last step(s) of the deferral, through the glue, on the releasing thread.
+async fn glue_feed_final(global: &GlobalHandle, tables: &TableHandle, peers: &[IpAddr; NSRC], ev: &Ev) {
+    match *ev {
+        Ev::Timer => gr_selection_deferral_timer_expired(global.clone(), tables.clone()).await,
+        Ev::Wd(p) => {
+            let rd_outputs = {
+                let mut server = global.write().await;
+                if let Some(rd) = &mut server.selection_deferral { rd.process(RestartingInput::PeerWithdrawn(peers[p as usize])) } else { vec![] }
+            };
+            let _ = process_restarting_outputs(rd_outputs, global, tables).await;
+        }
+        Ev::Eor(p, f) => {
+            let rd_outputs = {
+                let mut server = global.write().await;
+                if let Some(rd) = &mut server.selection_deferral { rd.process(RestartingInput::EorReceived(peers[p as usize], fam_of(f as usize))) } else { vec![] }
+            };
+            let _ = process_restarting_outputs(rd_outputs, global, tables).await;
+        }
+        Ev::Est(..) => {}
+    }
+}
+
+type ConcChange = (u8, u8, Vec<(u8, u32)>);
+
+fn conc_decode(env: &Env, pool: &ConcPool, rx: &mut mpsc::UnboundedReceiver<ToPeerEvent>, out: &mut Vec<ConcChange>) {
+    while let Ok(ev) = rx.try_recv() {
+        if let ToPeerEvent::NlriChange(c) = ev {
+            let (f, x) = pool.index.get(&c.net).copied().unwrap_or((99, 99));
+            out.push((f, x, conc_paths(env, &c.current_paths)));
+        }
+    }
+}
+
+fn conc_paths(env: &Env, paths: &[table::Path]) -> Vec<(u8, u32)> {
+    let mut v: Vec<(u8, u32)> = paths
+        .iter()
+        .map(|p| {
+            let src = (0..NSRC).find(|i| env.peers[*i] == p.source.remote_addr).unwrap_or(99) as u8;
+            let tag = p.attr.iter().find(|a| a.code() == packet::Attribute::MULTI_EXIT_DESC).and_then(|a| a.value()).unwrap_or(u32::MAX);
+            (src, tag)
+        })
+        .collect();
+    v.sort();
+    v
+}
+
+fn paths_str(p: &[(u8, u32)]) -> String {
+    format!("[{}]", p.iter().map(|(s, t)| format!("src{}/med{}", s + 1, t)).collect::<Vec<_>>().join(","))
+}
+
+/// One concurrent trial.  Everything random derives from `tseed`.
+fn conc_trial(ctx: &mut Ctx, pools: &[ConcPool], tseed: u64) {
+    let mut r = Rng::new(tseed ^ 0xC0C0);
+    let pool = &pools[r.usize(pools.len())];
+    let shards = pool.shards;
+    let kind = r.below(3); // how the deferral ends
+    let final_events: Vec<Ev> = match kind {
+        0 => vec![Ev::Wd(1)],
+        1 => if r.bool() { vec![Ev::Eor(1, 0), Ev::Eor(1, 1)] } else { vec![Ev::Eor(1, 1), Ev::Eor(1, 0)] },
+        _ => vec![Ev::Timer],
+    };
+    let evk: &'static str = match kind {
+        0 => "withdrawn",
+        1 => "eor",
+        _ => "timer",
+    };
+    let cfg = Cfg { helper: [3, 3, 0], timer: true, shards: shards as u8, mode: Mode::Glue };
+
+    // ---- sequential part: startup, routes received meanwhile, both helpers back, p1 done
+    let mut pre: Vec<Vec<BTreeMap<u8, u32>>> = (0..NTF).map(|_| (0..CONC_NPFX).map(|_| BTreeMap::new()).collect()).collect();
+    let mut tag = 1u32;
+    let mut plan_pre: Vec<(u8, u8, u8, u32)> = Vec::new();
+    for &f in &CONC_FAMS {
+        for x in 0..CONC_NPFX {
+            if r.chance(3, 4) {
+                let s = r.below(2) as u8;
+                plan_pre.push((f as u8, x as u8, s, tag));
+                pre[f][x].insert(s, tag);
+                tag += 1;
+                if r.chance(1, 4) {
+                    plan_pre.push((f as u8, x as u8, 2, tag));
+                    pre[f][x].insert(2, tag);
+                    tag += 1;
+                }
+            }
+        }
+    }
+    // session threads: few hot prefixes, so they hit destinations the release is handing out
+    let nsess = 1 + r.usize(2);
+    let hot: Vec<u8> = (0..3).map(|_| r.below(CONC_NPFX as u64) as u8).collect();
+    let mut plans: Vec<Vec<SessOp>> = Vec::new();
+    for t in 0..nsess {
+        let n = r.range(4, 10) as usize;
+        let mut ops = Vec::new();
+        for i in 0..n {
+            let f = if r.chance(1, 6) { 3 } else { r.below(2) as u8 };
+            ops.push(SessOp { insert: r.chance(7, 10), f, x: *r.pick(&hot), tag: 10_000 * (t as u32 + 1) + i as u32 });
+        }
+        plans.push(ops);
+    }
+    let delays: Vec<u64> = (0..=nsess).map(|i| if i == 0 { r.below(300) } else { r.below(120) }).collect();
+    let intensity = r.range(40, 95) as u32;
+
+    let global = ctx.global.clone();
+    let env = &ctx.env;
+    let rt = &ctx.rt;
+    let setup = guard(|| {
+        rt.block_on(async {
+            let mut sys = Sys::start(env, &cfg, global.clone(), None).await;
+            for &(f, x, s, tg) in &plan_pre {
+                let _ = sys.tables.insert_route(env.sources[s as usize].clone(), fam_of(f as usize), packet::PathNlri::new(pool.data[f as usize][x as usize].clone()), Some(env.nh[f as usize]), mk_attrs(tg), None, 0);
+            }
+            for ev in [Ev::Est(0, 3), Ev::Est(1, 3), Ev::Eor(0, 0), Ev::Eor(0, 1)] {
+                sys.feed(&ev, None).await;
+            }
+            sys
+        })
+    });
+    let mut sys = match setup {
+        Ok(s) => s,
+        Err(p) => {
+            ctx.global = new_global();
+            ctx.rep.violation(&format!("C11/panic/{}:{}", p.location, panic_class(&p.message)), &format!("concurrent trial setup panicked: {}", p.message), Json::obj(vec![("conc_seed", Json::s(format!("{}", tseed)))]));
+            return;
+        }
+    };
+    let mut stream: Vec<ConcChange> = Vec::new();
+    conc_decode(env, pool, &mut sys.rx, &mut stream);
+    let held_leak = stream.iter().any(|c| c.0 < 2);
+
+    // ---- concurrent part
+    let rel_state = Arc::new(AtomicU8::new(0));
+    let barrier = Arc::new(std::sync::Barrier::new(nsess + 1));
+    crate::verif_hooks::install(tseed, intensity);
+    let mut handles = Vec::new();
+    {
+        let (global, tables, peers, fe, rs, b, d) = (sys.global.clone(), sys.tables.clone(), env.peers, final_events.clone(), rel_state.clone(), barrier.clone(), delays[0]);
+        handles.push(std::thread::spawn(move || {
+            guard(move || {
+                crate::verif_hooks::set_thread_id(1);
+                let rt = tokio::runtime::Builder::new_current_thread().enable_time().build().expect("rt");
+                b.wait();
+                let t0 = std::time::Instant::now();
+                while (t0.elapsed().as_micros() as u64) < d {
+                    std::hint::spin_loop();
+                }
+                rs.store(1, Ordering::SeqCst);
+                rt.block_on(async {
+                    for ev in &fe {
+                        glue_feed_final(&global, &tables, &peers, ev).await;
+                    }
+                });
+                rs.store(2, Ordering::SeqCst);
+                0u64
+            })
+        }));
+    }
+    for t in 0..nsess {
+        let (tables, src, ops, rs, b, d) = (sys.tables.clone(), env.sources[t].clone(), plans[t].clone(), rel_state.clone(), barrier.clone(), delays[t + 1]);
+        let nlri: Vec<Vec<packet::Nlri>> = pool.data.clone();
+        let nh = env.nh.clone();
+        handles.push(std::thread::spawn(move || {
+            guard(move || {
+                crate::verif_hooks::set_thread_id(10 + t as u32);
+                b.wait();
+                let t0 = std::time::Instant::now();
+                while (t0.elapsed().as_micros() as u64) < d {
+                    std::hint::spin_loop();
+                }
+                let mut during = 0u64;
+                for op in &ops {
+                    let s0 = rs.load(Ordering::SeqCst);
+                    let net = packet::PathNlri::new(nlri[op.f as usize][op.x as usize].clone());
+                    if op.insert {
+                        let _ = tables.insert_route(src.clone(), fam_of(op.f as usize), net, Some(nh[op.f as usize]), mk_attrs(op.tag), None, 0);
+                    } else {
+                        tables.remove_route(src.clone(), fam_of(op.f as usize), net, None, 0);
+                    }
+                    let s1 = rs.load(Ordering::SeqCst);
+                    if s0 == 1 || s1 == 1 || (s0 == 0 && s1 == 2) {
+                        during += 1;
+                    }
+                }
+                during
+            })
+        }));
+    }
+    let mut during_total = 0u64;
+    let mut panicked: Option<String> = None;
+    for h in handles {
+        match h.join() {
+            Ok(Ok(n)) => during_total += n,
+            Ok(Err(p)) => panicked = Some(format!("C11/panic/{}:{}|{}", p.location, panic_class(&p.message), p.message)),
+            Err(_) => panicked = Some("C11/panic/?:other|thread join failed".to_string()),
+        }
+    }
+    let (hits, log) = crate::verif_hooks::uninstall();
+    conc_decode(env, pool, &mut sys.rx, &mut stream);
+
+    // session ops that ran between two shard releases of one end_deferral_families call
+    let mut between = 0u64;
+    let mut seen8 = false;
+    let mut pending_ops = 0u64;
+    for (_tid, id) in &log {
+        match *id {
+            8 => {
+                if seen8 {
+                    between += pending_ops;
+                }
+                seen8 = true;
+                pending_ops = 0;
+            }
+            1 | 2 => {
+                if seen8 {
+                    pending_ops += 1;
+                }
+            }
+            _ => {}
+        }
+    }
+    let log_hash = {
+        let mut b = Vec::with_capacity(log.len() * 3 + 8);
+        b.extend_from_slice(&tseed.to_le_bytes());
+        for (t, i) in &log {
+            b.push(*t as u8);
+            b.extend_from_slice(&i.to_le_bytes());
+        }
+        fnv64(&b)
+    };
+
+    let witness = |what: &str, detail: String, stream: &[ConcChange]| -> Json {
+        Json::obj(vec![
+            ("origin", Json::s("concurrent")),
+            ("conc_seed", Json::s(format!("{}", tseed))),
+            ("replay", Json::s(format!("VERIF_PART=conc VERIF_CONC_SEED={} (best effort: re-applies the same plan and delay seed)", tseed))),
+            ("table_shards", Json::Int(shards as i128)),
+            ("deferral_ended_by", Json::strs(final_events.iter().map(|e| op_str(&Op::Ev(*e))))),
+            ("held_before_release", Json::strs(plan_pre.iter().map(|(f, x, s, t)| format!("{}#{} src{}/med{}", FAM_NAME[*f as usize], x, s + 1, t)))),
+            (
+                "session_threads",
+                Json::arr(plans.iter().enumerate().map(|(t, ops)| {
+                    Json::strs(ops.iter().map(|o| format!("{} {}#{} src{}/med{}", if o.insert { "insert" } else { "remove" }, FAM_NAME[o.f as usize], o.x, t + 1, o.tag)).collect::<Vec<_>>())
+                })),
+            ),
+            ("what", Json::s(what)),
+            ("detail", Json::s(detail)),
+            ("channel", Json::strs(stream.iter().map(|(f, x, p)| format!("{}#{} {}", FAM_NAME.get(*f as usize).copied().unwrap_or("?"), x, paths_str(p))))),
+            ("sched_log", Json::s(log.iter().take(200).map(|(t, i)| format!("{}:{}", t, i)).collect::<Vec<_>>().join(" "))),
+        ])
+    };
+
+    ctx.rep.eval();
+    ctx.rep.count("conc:trials");
+    ctx.rep.count(if shards == 2 { "conc:trials-2-shards" } else { "conc:trials-4-shards" });
+    ctx.rep.count(match kind {
+        0 => "conc:ended-by-withdrawn",
+        1 => "conc:ended-by-eor",
+        _ => "conc:ended-by-timer",
+    });
+    ctx.rep.count_n("conc:session-ops", plans.iter().map(|p| p.len() as u64).sum());
+    ctx.rep.count_n("conc:session-ops-during-release", during_total);
+    ctx.rep.count_n("conc:session-ops-between-shard-releases", between);
+    ctx.rep.max("conc-sched-point-hits", hits);
+    if during_total > 0 {
+        ctx.rep.count("conc:overlapping-trials");
+        ctx.rep.nontrivial(log_hash);
+    }
+
+    if let Some(p) = panicked {
+        let (sig, msg) = p.split_once('|').unwrap_or((&p, ""));
+        ctx.rep.violation(sig, &format!("a thread of the concurrent trial panicked: {}", msg), witness("panic", msg.to_string(), &stream));
+        ctx.global = new_global();
+        return;
+    }
+    if held_leak {
+        ctx.rep.violation("C11/held/insert/conc-announced-before-threads-started", "a deferred family was announced during the sequential setup of a concurrent trial", witness("held", String::new(), &stream));
+    }
+
+    // ---- quiescence: ground truth from the RIB's own read accessor
+    let mut rib: BTreeMap<(u8, u8), Vec<(u8, u32)>> = BTreeMap::new();
+    for sh in 0..shards {
+        let t = sys.tables.shards[sh].lock().unwrap();
+        for &f in &CONC_FAMS {
+            for c in t.rtable.collect_loc_rib_paths(&fam_of(f)) {
+                if let Some(&(ff, x)) = pool.index.get(&c.net) {
+                    rib.insert((ff, x), conc_paths(env, &c.current_paths));
+                }
+            }
+        }
+    }
+    // what the sessions' own order implies (each thread owns one source)
+    let mut expect = pre.clone();
+    let mut touched: std::collections::BTreeSet<(u8, u8)> = Default::default();
+    for (t, ops) in plans.iter().enumerate() {
+        for o in ops {
+            touched.insert((o.f, o.x));
+            if o.insert {
+                expect[o.f as usize][o.x as usize].insert(t as u8, o.tag);
+            } else {
+                expect[o.f as usize][o.x as usize].remove(&(t as u8));
+            }
+        }
+    }
+    let mut judged = 0u64;
+    for &f in &CONC_FAMS {
+        for x in 0..CONC_NPFX {
+            let key = (f as u8, x as u8);
+            let now = rib.get(&key).cloned().unwrap_or_default();
+            let mut want: Vec<(u8, u32)> = expect[f][x].iter().map(|(s, t)| (*s, *t)).collect();
+            want.sort();
+            if now != want {
+                ctx.rep.count("unjudged:conc-rib-differs-from-per-thread-order");
+            }
+            let anns: Vec<&ConcChange> = stream.iter().filter(|c| (c.0, c.1) == key).collect();
+            // (a) the last thing the peer channel was told is what the RIB holds now
+            let last = anns.last().map(|c| c.2.clone()).unwrap_or_default();
+            judged += 1;
+            if last != now {
+                let fact = "last-announcement-is-not-the-rib-state";
+                ctx.rep.violation(
+                    &format!("C11/conc-final-view/{}/{}", evk, fact),
+                    "after a release that ran concurrently with route changes, the last NlriChange a registered peer received for a prefix is not what the table holds",
+                    witness("final view", format!("{}#{}: last told {} (of {} announcements), RIB holds {}", FAM_NAME[f], x, paths_str(&last), anns.len(), paths_str(&now)), &stream),
+                );
+                sys_finish(ctx, sys);
+                return;
+            }
+            ctx.rep.count("conc:final-view-prefixes-agree");
+            // (b) received before the end of deferral and not touched by a session thread: exactly once
+            if f < 2 && !touched.contains(&key) && !pre[f][x].is_empty() {
+                judged += 1;
+                if anns.len() != 1 || anns[0].2 != now {
+                    let fact = if anns.is_empty() { "conc-untouched-prefix-not-announced" } else if anns.len() > 1 { "conc-untouched-prefix-announced-again" } else { "conc-untouched-prefix-wrong-paths" };
+                    ctx.rep.violation(
+                        &format!("C11/exactly-once/{}/{}", evk, fact),
+                        "a prefix received during the deferral and not touched by any concurrent change was not announced exactly once with its path list",
+                        witness("exactly once", format!("{}#{}: {} announcements, RIB holds {}", FAM_NAME[f], x, anns.len(), paths_str(&now)), &stream),
+                    );
+                    sys_finish(ctx, sys);
+                    return;
+                }
+                ctx.rep.count("conc:untouched-prefix-announced-once");
+            } else if f < 2 && anns.len() > 1 {
+                ctx.rep.count("conc:touched-prefix-announced-more-than-once");
+            }
+        }
+    }
+    if stream.iter().any(|c| c.0 == 99) {
+        ctx.rep.violation(&format!("C11/exactly-once/{}/conc-unknown-prefix-announced", evk), "an NlriChange for a prefix nobody inserted", witness("unknown prefix", String::new(), &stream));
+    }
+    // (c) restarting state cleared, no shard still deferring (probe insert per shard)
+    let flag = rt.block_on(async { sys.global.read().await.selection_deferral.is_some() });
+    judged += 1;
+    if flag {
+        ctx.rep.violation(&format!("C11/terminates/{}/conc-flag-not-cleared", evk), "the deferral ended but Global.selection_deferral is still set", witness("flag", String::new(), &stream));
+    }
+    for f in 0..2usize {
+        for (sh, n) in pool.probe[f].iter().enumerate() {
+            let _ = sys.tables.insert_route(env.sources[3].clone(), fam_of(f), packet::PathNlri::new(n.clone()), Some(env.nh[f]), mk_attrs(9), None, 0);
+            let mut got = Vec::new();
+            conc_decode(env, pool, &mut sys.rx, &mut got);
+            judged += 1;
+            if got.is_empty() {
+                ctx.rep.violation(
+                    &format!("C11/terminates/{}/conc-shard-still-deferring", evk),
+                    "after the deferral ended an insert is still suppressed on one shard",
+                    witness("shard flag", format!("{} probe on shard {}", FAM_NAME[f], sh), &stream),
+                );
+                sys_finish(ctx, sys);
+                return;
+            }
+            ctx.rep.count("conc:shard-probes-announced");
+        }
+    }
+    ctx.rep.evals(judged);
+    if ctx.rep.want_sample() && during_total > 0 && between > 0 {
+        ctx.rep.sample(witness("sample (no violation)", format!("{} session ops overlapped the release, {} between shard releases", during_total, between), &stream));
+    }
+    sys_finish(ctx, sys);
+}
+
+fn sys_finish(ctx: &Ctx, sys: Sys<'_>) {
+    ctx.rt.block_on(sys.finish());
+}
+
+fn run_concurrent(ctx: &mut Ctx, rng: &mut Rng, count: u64, fixed_seed: Option<u64>) {
+    let pools = vec![ConcPool::new(&ctx.env, 2), ConcPool::new(&ctx.env, 4)];
+    let mut done = 0u64;
+    while done < count && ctx.rep.in_budget() {
+        let tseed = fixed_seed.unwrap_or_else(|| rng.next_u64());
+        conc_trial(ctx, &pools, tseed);
+        done += 1;
+    }
+}
+
 // ------------------------------------------------------------------ machine-only exhaustive (full alphabet, deeper)
 
 /// The bare `RestartingDeferral` against the same model, judged on its output
@@ -2748,6 +3203,11 @@ fn run() {
     }
     if part == "rnd" || part == "all" {
         run_early_session_scenarios(&mut ctx);
+    }
+    if part == "conc" || part == "all" {
+        let fixed = params.get("conc_seed").and_then(|v| v.parse::<u64>().ok());
+        let n = if fixed.is_some() { params.get_u64("count", 20) } else if part == "all" { 200 } else { params.get_u64("count", 3000) };
+        run_concurrent(&mut ctx, &mut rng, n, fixed);
     }
     if part == "rnd" {
         run_random(&mut ctx, &mut rng, params.get_u64("count", 2000));
